@@ -185,14 +185,20 @@ def run_scan(ctx, i, rng):
   split_params = rng.random() < 0.7
   if roles.get('params', ('x',))[0] == 'broadcast':
     split_params = False  # a broadcast collection cannot depend on per-iteration rngs
-  desc = dict(inner=repr(inner)[:500], d=d, T=T, reverse=reverse, unroll=unroll, roles=roles, in_axes=in_ax, out_axes=out_ax, split_params=split_params)
+  # the non-default scan implementation (no constancy check of broadcast variables) must be the same loop
+  # (documented: without the check there is "no support for broadcast non-carry outputs", i.e. broadcast collections cannot be
+  # created inside the loop - the variant is generated for configurations without broadcast collections only)
+  cci = not (i % 4 == 3 and not any(r[0] == 'broadcast' for r in roles.values()))
+  desc = dict(inner=repr(inner)[:500], d=d, T=T, reverse=reverse, unroll=unroll, roles=roles, in_axes=in_ax, out_axes=out_ax, split_params=split_params,
+              check_constancy_invariants=cci)
   nontrivial = T >= 2 and any(r[0] in ('axis', 'carry') for r in roles.values())
   with ctx.case('scan', i, desc, nontrivial=nontrivial):
     variable_axes = {col: r[1] for col, r in roles.items() if r[0] == 'axis'}
     bcast = [col for col, r in roles.items() if r[0] == 'broadcast']
     carry = [col for col, r in roles.items() if r[0] == 'carry']
     S = nn.scan(B['Body'], variable_axes=variable_axes, variable_broadcast=bcast or False, variable_carry=carry or False,
-                split_rngs={'params': split_params}, in_axes=in_ax, out_axes=out_ax, length=T, reverse=reverse, unroll=unroll)
+                split_rngs={'params': split_params}, in_axes=in_ax, out_axes=out_ax, length=T, reverse=reverse, unroll=unroll,
+                check_constancy_invariants=cci)
     m = S(inner, d)
     body = B['Body'](inner, d)
     nr = np.random.default_rng(rng.getrandbits(32))
